@@ -118,6 +118,25 @@ func init() {
 		}
 		return "ok " + toHex(buf.Bytes())
 	})
+	// the calls of a script one after another on ONE encoder, refused calls included: what the stream holds afterwards (a refused
+	// call must not leave anything behind, or whatever is encoded afterwards is no longer what a decoder reads back)
+	register("cbor.enc.cont", func(args []string) string {
+		n, err := strconv.Atoi(args[0])
+		if err != nil {
+			panic("bad-op")
+		}
+		var buf bytes.Buffer
+		s := &scriptState{toks: args[1:]}
+		s.runCalls(n, cbor.NewEncoder(&buf))
+		if len(s.toks) != 0 {
+			panic("bad-op")
+		}
+		e := "noerr"
+		if s.err != nil {
+			e = "first-err-" + errClass(s.err)
+		}
+		return "ok " + toHex(buf.Bytes()) + " " + e
+	})
 	// encoder output fed to the deterministic-CBOR check: everything the encoder emits must be accepted
 	register("cbor.encdet", func(args []string) (res string) {
 		n, err := strconv.Atoi(args[0])
